@@ -23,6 +23,14 @@ def queries(tier):
     for q in C17.queries(tier):
         if q.name.startswith(("alloc-sz", "chunk-dup", "chunk-pullup", "chunk-insert-cap8", "chunk-append-cap8", "chunk-realloc-cap8")):
             qs.append(q)
+    SENV = ["env_alloc.c", "env_misc.c", "env_sync.c", "env_aio.c", "env_idmap.c", "env_libc.c"]
+    STU = ["core/list.c", "core/msgqueue.c", "core/pollable.c", "core/options.c"]
+    for ps in (0, 24, 100):
+        qs.append(Query("sock-create-destroy-psize%d" % ps, "c03/sock_life.c", tus=STU, env=SENV, defs={"PSIZE": ps}, unwind=30, timeout=300, group="c03/sock_life.c",
+                        params={"unit": "core/socket.c nni_sock_create / sock_destroy", "protocol_data_size": ps, "monitor": "sized free, live blocks"}))
+    for k in (1, 2, 3, 4):
+        qs.append(Query("sock-create-allocfail-k%d" % k, "c03/sock_life.c", tus=STU, env=SENV, defs={"PSIZE": 24, "FAILQ": k}, unwind=30, timeout=300, group="~c03/sock_life.c#fail",
+                        params={"unit": "core/socket.c nni_sock_create", "failing_allocation": k}))
     return qs
 
 MANIFEST = {
